@@ -80,6 +80,12 @@ def shards(tier, seed):
             out.append(dict(api="scan", func=func, layout=layout))
     out.append(dict(api="nd-unknown", func="*", layout="*"))
     out.append(dict(api="xarray", func="*", layout="*"))
+    for func in ("sum", "nanmax", "count", "argmax", "nanmean", "nanfirst"):
+        out.append(dict(api="multi", func=func, layout="*"))
+    for obj in ("dataarray", "dataset"):
+        for grouper in ("coord", "external", "two", "binned", "cat-binned"):
+            for dc in (False, True):
+                out.append(dict(api="xarray-multi", func="*", layout="*", obj=obj, grouper=grouper, dask_coord=dc))
     out.append(dict(api="rechunk", func="*", layout="*"))
     return out
 
@@ -322,6 +328,10 @@ def run_shard(shard):
             res.nontrivial += 1
             res.outcomes["ok"] += 1
         res.sample(dict(api=api, funcs=["sum", "mean", "max", "count", "nanargmax", "var"]))
+    elif api == "multi":
+        run_multi(res, shard["func"])
+    elif api == "xarray-multi":
+        run_xarray_multi(res, shard.get("obj"), shard.get("grouper"), shard.get("dask_coord"))
     elif api == "rechunk":
         import flox
 
@@ -351,10 +361,201 @@ def run_shard(shard):
     return res
 
 
+def _lazy_verdict(res, kind, val, hits, sched, case, tags, what, size=15):
+    """Common part: classify the guarded call. Returns True when the call returned a value lazily."""
+    res.evaluations += 1
+    res.states += 1
+    res.transitions += 1
+    if kind in ("refused", "error"):
+        res.outcomes[f"{kind}:{type(val).__name__}"] += 1
+        return False
+    res.compared += 1
+    if kind == "computed" or hits or sched:
+        res.outcomes["not-lazy"] += 1
+        res.violate("eager-evaluation", case, dict(tripwire_hits=hits, scheduler_invocations=sched, blocks=dict((str(k), v) for k, v in TRIP.items())),
+                    what, tags=dict(tags, kind="evaluated"), size=size)
+        return False
+    return True
+
+
+def run_multi(res, func):
+    """Two groupers (categorical x categorical|binned), each numpy or dask, on a 2-block-row array: lazy call, then the computed
+    table equals the eager one."""
+    import dask
+    import flox
+    import pandas as pd
+
+    lab1 = np.array([0.0, 1.0, 0.0, NAN, 2.0, 0.0])
+    lab2 = np.array([10, 10, 20, 20, 10, 30])
+    chunks = (2, 2, 2)
+    V = np.arange(12, dtype=float).reshape(2, 6) * 1.5 - 4
+    V[1, 2] = NAN
+    bins = {"cat": (np.array([10, 20, 30]), False), "edges": (np.array([5, 15, 25, 35]), True),
+            "interval": (pd.IntervalIndex.from_breaks([5, 15, 25, 35], closed="left"), True), "cat-subset": (np.array([20, 10]), False)}
+    for d1, d2, bk, method, reindex, lchunks in itertools.product((False, True), (False, True), bins, (None, "map-reduce", "cohorts", "blockwise"),
+                                                               (None, True, False), ("same", "other")):
+        if lchunks == "other" and not (d1 or d2):
+            continue
+        eg2, isbin = bins[bk]
+        lc = chunks if lchunks == "same" else (3, 3)
+        case = dict(api="multi", func=func, by1_dask=d1, by2_dask=d2, grouper2=bk, method=method, reindex=reindex, label_chunks=list(lc))
+        tags = dict(api="multi", func=func, method=str(method), reindex=str(reindex), labels_dask=d1 or d2, expected=True, grouper2=bk)
+        kw = dict(func=func, expected_groups=(np.array([0.0, 1.0, 2.0]), eg2), isbin=(False, isbin), fill_value=-9, sort=bk != "cat-subset")
+
+        def call():
+            arr = lazy_array(V, ((1, 1), chunks), "array")
+            b1 = lazy_array(lab1, (lc,), "labels") if d1 else lab1
+            b2 = lazy_array(lab2, (lc,), "labels2") if d2 else lab2
+            return flox.groupby_reduce(arr, b1, b2, method=method, reindex=reindex, **kw)
+
+        kind, val, hits, sched = guarded(call)
+        if not _lazy_verdict(res, kind, val, hits, sched, case, tags, "no chunk of the value or label arrays is evaluated by the call"):
+            continue
+        result, *groups = val
+        if not is_lazy(result):
+            res.outcomes["not-a-lazy-array"] += 1
+            res.violate("returned-eager-object", case, dict(type=type(result).__name__), "a lazy (dask) array", tags=dict(tags, kind="type"), size=15)
+            continue
+        TRIP.clear()
+        try:
+            got = result.compute(scheduler="sync")
+        except e1.REFUSALS:
+            res.outcomes["refused-at-compute"] += 1
+            continue
+        except Exception as e:
+            res.outcomes[f"error-at-compute:{type(e).__name__}"] += 1
+            res.violate("compute-time-labels", case, dict(exc=type(e).__name__, msg=str(e)[:160]), "the eager table", tags=dict(tags, kind="compute-failure", exc=type(e).__name__), size=15)
+            continue
+        res.transitions += 1
+        # label blocks feed one chunk task per batch block (2) - and, rechunked to the array's chunks, at most twice that
+        lim = 2 if lchunks == "same" else 4
+        multi = {str(k): v for k, v in TRIP.items() if v > (lim if str(k[0]).startswith("labels") else 1)}
+        if multi:
+            res.outcomes["recomputed-blocks"] += 1
+            res.violate("block-evaluated-twice", case, dict(multiply_evaluated=multi), "each input block is produced at most once per consumer",
+                        tags=dict(tags, kind="recompute"), size=15)
+            continue
+        eager = e1.call_reduce(V, lab1, lab2, **kw)
+        if eager.kind != "ok":
+            res.outcomes[f"eager-{eager.kind}:{eager.exc}"] += 1
+            continue
+        exp = np.asarray(eager.result, dtype=float)
+        obs = np.asarray(got, dtype=float)
+        if obs.shape != exp.shape or rm.mismatch(obs, exp, rtol=1e-9).any():
+            res.outcomes["mapping-differs"] += 1
+            res.violate("compute-time-labels", case, dict(values=got), dict(values=eager.result), tags=dict(tags, kind="mapping"), size=15)
+            continue
+        res.nontrivial += 1
+        res.outcomes["ok"] += 1
+    res.sample(dict(api="multi", func=func, groupers="categorical float with NaN x {categorical, categorical subset unsorted, bin edges, IntervalIndex}",
+                    options="numpy|dask per grouper x method x reindex x label chunks same|other"))
+
+
+def run_xarray_multi(res, only_obj=None, only_grouper=None, only_dc=None):
+    """xarray_reduce beyond one DataArray and one coordinate: Datasets, two groupers, binning, an external DataArray grouper,
+    explicit dim; lazy call, then values equal the same call on the in-memory object."""
+    import pandas as pd
+    import xarray as xr
+    from flox.xarray import xarray_reduce
+
+    lab1 = np.array([0.0, 1.0, 0.0, 1.0, 2.0, 0.0])
+    lab2 = np.array([10, 10, 20, 20, 10, 30])
+    chunks = (2, 2, 2)
+    n = 6
+    V = np.arange(2 * n, dtype=float).reshape(2, n) - 3
+    W = np.arange(n, dtype=float) * 2
+
+    def build(lazy, kindobj, dask_coord, grouper):
+        arr = lazy_array(V, ((1, 1), chunks), "array") if lazy else V
+        w = lazy_array(W, (chunks,), "array2") if lazy else W
+        l1 = lazy_array(lab1, (chunks,), "labels") if (lazy and dask_coord) else lab1
+        l2 = lazy_array(lab2, (chunks,), "labels2") if (lazy and dask_coord) else lab2
+        coords = {"lab": ("x", l1), "lab2": ("x", l2), "y": [5, 6]}
+        if kindobj == "dataarray":
+            obj = xr.DataArray(arr, dims=("y", "x"), coords=coords, name="v", attrs={"a": 1})
+        else:
+            obj = xr.Dataset({"v": (("y", "x"), arr), "w": (("x",), w), "const": (("y",), np.array([1.0, 2.0]))}, coords=coords)
+        if grouper == "coord":
+            by, eg, isbin = ("lab",), (np.array([0.0, 1.0, 2.0]),), (False,)
+        elif grouper == "external":
+            by, eg, isbin = (xr.DataArray(l1, dims=("x",), name="ext"),), (np.array([0.0, 1.0, 2.0]),), (False,)
+        elif grouper == "two":
+            by, eg, isbin = ("lab", "lab2"), (np.array([0.0, 1.0, 2.0]), np.array([10, 20, 30])), (False, False)
+        elif grouper == "binned":
+            by, eg, isbin = ("lab2",), (np.array([5, 15, 25, 35]),), (True,)
+        else:  # cat x binned
+            by, eg, isbin = ("lab", "lab2"), (np.array([0.0, 1.0, 2.0]), pd.IntervalIndex.from_breaks([5, 15, 25, 35])), (False, True)
+        return obj, by, eg, isbin
+
+    for kindobj, dask_coord, grouper, func, method, dim in itertools.product(
+            ("dataarray", "dataset"), (False, True), ("coord", "external", "two", "binned", "cat-binned"),
+            ("sum", "nanmean", "max", "count", "var", "nanargmax", "first"), (None, "map-reduce", "cohorts"), (None, "x", ...)):
+        if func == "nanargmax" and kindobj == "dataset":
+            continue
+        if (only_obj and kindobj != only_obj) or (only_grouper and grouper != only_grouper) or (only_dc is not None and dask_coord != only_dc):
+            continue
+        case = dict(api="xarray-multi", obj=kindobj, dask_coord=dask_coord, grouper=grouper, func=func, method=method, dim=str(dim))
+        tags = dict(api="xarray-multi", obj=kindobj, func=func, method=str(method), labels_dask=dask_coord, expected=True, grouper=grouper, dim=str(dim))
+
+        def call(lazy=True):
+            obj, by, eg, isbin = build(lazy, kindobj, dask_coord, grouper)
+            kw = dict(func=func, expected_groups=eg, isbin=isbin, fill_value=-9 if func != "nanargmax" else -1)
+            if lazy:
+                kw["method"] = method
+            if dim is not None:
+                kw["dim"] = dim
+            return xarray_reduce(obj, *by, **kw)
+
+        kind, val, hits, sched = guarded(call)
+        if not _lazy_verdict(res, kind, val, hits, sched, case, tags, "a lazy xarray result"):
+            continue
+        lazy_vars = [val] if kindobj == "dataarray" else [val[k] for k in ("v", "w")]
+        if not all(is_lazy(v.data) for v in lazy_vars):
+            res.outcomes["not-a-lazy-array"] += 1
+            res.violate("returned-eager-object", case, dict(types=[type(v.data).__name__ for v in lazy_vars]), "xarray variables wrapping lazy arrays",
+                        tags=dict(tags, kind="type"), size=15)
+            continue
+        TRIP.clear()
+        try:
+            got = val.compute(scheduler="sync")
+        except Exception as e:
+            res.outcomes[f"error-at-compute:{type(e).__name__}"] += 1
+            if not isinstance(e, e1.REFUSALS):
+                res.violate("compute-time-labels", case, dict(exc=type(e).__name__, msg=str(e)[:160]), "the in-memory result", tags=dict(tags, kind="compute-failure", exc=type(e).__name__), size=15)
+            continue
+        res.transitions += 1
+        try:
+            exp = call(lazy=False)
+        except Exception as e:
+            res.outcomes[f"eager-error:{type(e).__name__}"] += 1
+            continue
+        bad = None
+        pairs = [("v", got, exp)] if kindobj == "dataarray" else [(k, got[k], exp[k]) for k in exp.data_vars]
+        if kindobj == "dataset" and set(got.data_vars) != set(exp.data_vars):
+            bad = ("variables", sorted(got.data_vars), sorted(exp.data_vars))
+        for name, g, x in pairs:
+            if bad:
+                break
+            if g.dims != x.dims or g.shape != x.shape:
+                bad = ("dims:" + name, [list(g.dims), list(g.shape)], [list(x.dims), list(x.shape)])
+            elif rm.mismatch(np.asarray(g.values, dtype=float), np.asarray(x.values, dtype=float), rtol=1e-9).any():
+                bad = ("values:" + name, g.values, x.values)
+        if bad:
+            res.outcomes["mapping-differs"] += 1
+            res.violate("compute-time-labels", case, dict(what=bad[0], got=bad[1]), dict(expected=bad[2]), tags=dict(tags, kind="mapping", what=bad[0].split(":")[0]), size=15)
+            continue
+        res.nontrivial += 1
+        res.outcomes["ok"] += 1
+    res.sample(dict(api="xarray-multi", objects=["DataArray", "Dataset (2-D var, 1-D var, var without the dim)"],
+                    groupers=["coordinate", "external DataArray", "two coordinates", "binned", "categorical x IntervalIndex"], dims=["None", "x", "..."]))
+
+
 def replay(payload):
     res = Result()
     c = payload["case"]
     if c["api"] == "reduce":
         check_reduce(res, c["func"], c["layout"], c["method"], c["engine"], c["reindex"], c["labels_dask"], c["expected"])
         return res
+    if c["api"] == "xarray-multi":
+        return run_shard(dict(api=c["api"], func="*", layout="*", obj=c["obj"], grouper=c["grouper"], dask_coord=c["dask_coord"]))
     return run_shard(dict(api=c["api"], func=c.get("func", "*"), layout=c.get("layout", "*")))
